@@ -14,7 +14,10 @@
 EXTENDS Registry, Json, IOUtils, SequencesExt
 
 Traces == JsonDeserialize(IOEnv.TRACE_FILE)
-ASSUME TLCSet(1, {}) /\ TLCSet(2, {}) /\ TLCSet(3, {})
+\* names with dots in them that occur in the traces -> their parts (written by the harness; cfg: DottedNames <- TraceDotted)
+\* (read once into register 4: a definition substituted by the configuration is re-evaluated at every use)
+TraceDotted == TLCGet(4)
+ASSUME TLCSet(1, {}) /\ TLCSet(2, {}) /\ TLCSet(3, {}) /\ TLCSet(4, JsonDeserialize(IOEnv.DOTTED_FILE))
 
 VARIABLES tid, l, st
 vars == <<tid, l, st>>
